@@ -512,17 +512,18 @@ class GeopackageLevelCache(TileCacheBase):
         return self._get_level(tile.coord[2]).load_tile(tile, with_metadata=with_metadata, dimensions=dimensions)
 
     def load_tiles(self, tiles, with_metadata=False, dimensions=None):
-        level = None
+        # each level has its own file: load the tiles of each level from there
+        level_tiles = {}
         for tile in tiles:
             if tile.source or tile.coord is None:
                 continue
-            level = tile.coord[2]
-            break
+            level_tiles.setdefault(tile.coord[2], []).append(tile)
 
-        if level is None:
-            return True
-
-        return self._get_level(level).load_tiles(tiles, with_metadata=with_metadata, dimensions=dimensions)
+        loaded = True
+        for level in level_tiles:
+            if not self._get_level(level).load_tiles(level_tiles[level], with_metadata=with_metadata, dimensions=dimensions):
+                loaded = False
+        return loaded
 
     def remove_tile(self, tile, dimensions=None):
         if tile.coord is None:
